@@ -1956,7 +1956,10 @@ class Engine:
 		"""Modular call: check requires, then continue with the postcondition."""
 		from .pure import PureEval
 		callee_env = dict(bound)
-		# ghost parameters of the callee contract are existential at the call site: not supported
+		# ghost parameters of the callee contract are universally quantified in its ensures: at a call site one arbitrary
+		# instance is assumed (sound, weaker)
+		for g_, ts_ in c.ghost.items():
+			callee_env[g_] = ts_.make(g_, st, self) if isinstance(ts_, TypeSpec) else ts_
 		pe = PureEval(self, st, env_override=callee_env)
 		for i, r in enumerate(c.requires):
 			self.oblige(st, site, f'pre#{i}', pe.eval_clause(r))
@@ -2023,7 +2026,7 @@ class Engine:
 				result = SInt(z3.Int(fresh_name('ret')), ct)
 				st.assume(z3.And(result.term >= ct.lo, result.term <= ct.hi))
 		pe2 = PureEval(self, st, env_override=callee_env, old_heap=entry_heap, extra={'result': result, 'Y': result})
-		for e in c.ensures:
+		for e in list(c.ensures) + list(c.defines):
 			ev_ = pe2.eval_clause(e)
 			if ev_ is False:
 				raise Unsupported(f'postcondition {e!r} of {c.qualname} is plainly false at this call (contract error: missing returns / wrong type?)')
